@@ -1,5 +1,6 @@
 import NotationCore.Model.Sign
 import NotationCore.Model.Jws
+import NotationCore.Model.Cose
 /-!
   What `jws.envelope.Sign` writes, as the abstract envelope the read-side model (`Model.Jws`) takes:
   `getSignedAttributes` (the protected header members), `generateJWS` (x5c, agent), the timestamp.
@@ -51,6 +52,41 @@ def jwsEnv (r : Req) (p : Prepared) (algName : String) : Jws.Env :=
     x5c := p.ci.certs.map (fun c => some c.id),
     leafKey := (match p.ci.certs with | c :: _ => c.key | [] => .other),
     sigok := [(algName, true)],
+    agent := r.agent, tst := p.tst }
+
+/-! ### COSE: `generateProtectedHeaders`, `generateUnprotectedHeaders` -/
+
+def coseLabel (a : ReqAttr) : Option Cose.Label :=
+  match a.key with
+  | .str s _ => some (.text s)
+  | .int i => some (.int i)
+  | _ => none
+
+def coseExtEntry (a : ReqAttr) : Option Cose.Entry :=
+  (coseLabel a).map (fun l => { label := l, val := .other, tok := a.value })
+
+def coseCritExt (ext : List ReqAttr) : List Cose.Label :=
+  ext.filterMap (fun a => if a.critical then coseLabel a else none)
+
+def coseCritList (r : Req) : List Cose.Label :=
+  [Cose.lScheme] ++ coseCritExt r.ext ++
+  (if r.scheme == schemeAuthority then [Cose.lAuthSigningTime] else []) ++
+  (if isZeroT (truncSec r.expiry) then [] else [Cose.lExpiry])
+
+def coseSpecEntries (r : Req) (alg : Int) : List Cose.Entry :=
+  [{ label := Cose.lAlg, val := .int alg, tok := "" },
+   { label := Cose.lCrit, val := .labels (coseCritList r), tok := "" },
+   { label := Cose.lCty, val := .text r.cty, tok := "" },
+   { label := Cose.lScheme, val := .text r.scheme, tok := "" },
+   { label := (if r.scheme == schemeX509 then Cose.lSigningTime else Cose.lAuthSigningTime), val := .time (truncSec r.signingTime) 1, tok := "" }] ++
+  (if isZeroT (truncSec r.expiry) then [] else [{ label := Cose.lExpiry, val := .time (truncSec r.expiry) 1, tok := "" }])
+
+/-- the envelope a successful COSE signing emits (times as CBOR tag 1) -/
+def coseEnv (r : Req) (p : Prepared) (alg : Int) : Cose.Env :=
+  { prot := coseSpecEntries r alg ++ r.ext.filterMap coseExtEntry,
+    x5c := some (p.ci.certs.map (fun c => .bytes (some c.id))),
+    leafKey := (match p.ci.certs with | c :: _ => c.key | [] => .other),
+    payloadNil := false, payload := r.payload, payloadLen := r.payloadLen, sigLen := p.s.sigLen, sigok := true,
     agent := r.agent, tst := p.tst }
 
 end NotationCore.Encode
